@@ -8,7 +8,7 @@ R-C13-4  fieldinverse inverts modulo the very modulus get_modulus() reports; pur
 """
 import ast
 
-from ..loader import norm, AnalysisError
+from ..loader import norm, AnalysisError, parents
 from ..poly import P, poly_of
 
 LC_CLASSES = [
@@ -549,8 +549,9 @@ def inverse(repo, rule):
         rets = [n for n in ast.walk(fi.node) if isinstance(n, ast.Return)]
         gr = [n for n in ast.walk(gm.node) if isinstance(n, ast.Return)]
         mod_b = norm(gr[0].value) if gr else None
-        t = norm(rets[0].value) if rets else ""
-        call = rets[0].value if rets else None
+        from ..flatten import resolve_locals as _rl
+        call = _rl(fi.node, rets[0].value) if rets else None        # locals holding the inverse are substituted
+        t = norm(call) if call is not None else ""
         inner = None
         if isinstance(call, ast.Call) and norm(call.func) == "int" and call.args and isinstance(call.args[0], ast.Call):
             inner = call.args[0]
@@ -579,10 +580,17 @@ def inverse(repo, rule):
         rule.undecided("%s:1" % g.relpath, g.name, "invert", "pure-Python fallback not found in the try/except ImportError form")
         return
     x_, m_ = [a.arg for a in fb.args.args][:2]
-    pows = [n for n in ast.walk(fb) if isinstance(n, ast.Call) and norm(n.func) == "pow" and len(n.args) == 3]
+    pows = [n for n in ast.walk(fb) if isinstance(n, ast.Call) and norm(n.func) in ("pow", "powmod") and len(n.args) == 3]
     good = [p for p in pows if norm(p.args[0]) == x_ and norm(p.args[1]) in ("%s - 2" % m_, "-1") and norm(p.args[2]) == m_]
     zero = [n for n in ast.walk(fb) if isinstance(n, ast.If) and norm(n.test) in ("y == 0", "not y", "0 == y")
             and any(isinstance(b, ast.Raise) for b in n.body)]
+    if not zero:
+        # the other way round: the result is returned only under `y != 0`, and a raise follows
+        rets_ = [n for n in ast.walk(fb) if isinstance(n, ast.Return) and n.value is not None]
+        guarded_ = [r for r in rets_ if any(isinstance(p_, ast.If) and norm(p_.test) in ("%s != 0" % norm(r.value), norm(r.value), "0 != %s" % norm(r.value))
+                                            and any(r is x for st in p_.body for x in ast.walk(st)) for p_ in parents(r))]
+        if rets_ and len(guarded_) == len(rets_) and any(isinstance(n, ast.Raise) for n in fb.body):
+            zero = guarded_
     where = "%s:%s" % (g.relpath, fb.lineno)
     if good and zero:
         rule.ok(where, "pysnark.gmpy:invert", norm(good[0]), "Fermat inverse x^(m-2) mod m (m prime by R-C13-3), zero result raises")
